@@ -61,22 +61,25 @@ type Sim struct {
 	Opts Opts
 	Term []TermEvent
 
-	mu       sync.Mutex
-	panicMu  sync.Mutex
-	freeSalt uint64
-	byGoid   map[int64]*G
-	gs       []*G
-	runnable []*G
-	lockWait []*G // goroutines waiting for a contended lock; made runnable by the next Unlock
-	arrive   chan struct{}
-	mainDone bool
-	over     atomic.Bool
-	last     *G
-	policy   int
-	stickyP  int
-	chgDen   int
-	nextLow  int
-	mapCtr   map[string]uint64
+	mu        sync.Mutex
+	panicMu   sync.Mutex
+	freeSalt  uint64
+	byGoid    map[int64]*G
+	gs        []*G
+	runnable  []*G
+	lockWait  []*G // goroutines waiting for a contended lock; made runnable by the next Unlock
+	arrive    chan struct{}
+	mainDone  bool
+	over      atomic.Bool
+	last      *G
+	chaser    *G // policy 4
+	chaseBack *G
+	chaseLeft int
+	policy    int
+	stickyP   int
+	chgDen    int
+	nextLow   int
+	mapCtr    map[string]uint64
 
 	// results
 	Steps       int
@@ -482,6 +485,11 @@ func Unlock(site string, unlock func()) {
 		default:
 		}
 	}
+	if g.held == 0 && !g.exiting {
+		// a scheduling point right after the critical section: what this goroutine does next with a value it took out of
+		// (or put back into) the protected state is not protected any more
+		Yield(site)
+	}
 }
 
 func (s *Sim) pick(n int, ids []*G) *G {
@@ -524,6 +532,48 @@ func (s *Sim) pick(n int, ids []*G) *G {
 			}
 		}
 		return ids[0]
+	case 4: // twin chase: right after a goroutine has done a visible operation, let another goroutine that runs the same
+		// code (same spawn site: another worker, another reader) run a burst of steps, then come back to the first one.
+		// This is the shape of a lost update or a torn pair of stores: A between two of its operations, B through all of its own.
+		if s.chaseLeft > 0 {
+			for _, g := range ids {
+				if g == s.chaser {
+					s.chaseLeft--
+					return g
+				}
+			}
+			s.chaseLeft = 0
+		}
+		if b := s.chaseBack; b != nil {
+			s.chaseBack = nil
+			for _, g := range ids {
+				if g == b {
+					return g
+				}
+			}
+		}
+		if s.last != nil && s.Tape.S(4) == 0 {
+			var twins []*G
+			for _, g := range ids {
+				if g != s.last && g.Role == s.last.Role {
+					twins = append(twins, g)
+				}
+			}
+			if len(twins) > 0 {
+				c := twins[s.Tape.S(len(twins))]
+				s.chaser, s.chaseLeft, s.chaseBack = c, s.Tape.S(10), s.last
+				return c
+			}
+		}
+		// otherwise: stay with the goroutine that ran last, three times in four
+		if s.last != nil && s.Tape.S(4) != 0 {
+			for _, g := range ids {
+				if g == s.last {
+					return g
+				}
+			}
+		}
+		return ids[s.Tape.S(n)]
 	default:
 		return ids[s.Tape.S(n)]
 	}
@@ -582,7 +632,7 @@ func (s *Sim) loop(main func()) {
 		return
 	}
 	// policy for this run
-	s.policy = s.Tape.S(4)
+	s.policy = s.Tape.S(5)
 	switch s.policy {
 	case 1:
 		s.stickyP = []int{50, 75, 90, 97}[s.Tape.S(4)]
